@@ -50,8 +50,11 @@
      invocations (Proofs/P2PureAtomicMerged.v: committed_means_merged_holds, through the invariants B_inv - no proposal
      lies strictly between a proposal and its PrevIndex - and J_inv - a proposal that is neither COMMITTED nor aborting
      nor applying has its index above Committed.Index).
-     For the deleted paths of a change the theorem states only what holds right after the commit
-     (C01_commit_contains_change); "still nothing there unless a later commit wrote it" is not stated.
+     For the deleted paths of a change this theorem states only what holds right after the commit
+     (C01_commit_contains_change); their persistence is C01_deleted_path_stays_deleted (end of this file): after the
+     commit of a change that deletes d, at the end of any continuation of the run nothing is live at or beneath d unless
+     a later commit step of that target - exhibited as a position of the run - carries a live value at or beneath d
+     (Proofs/P2PureAtomicDeleted.v: a commit adds to the live view only paths of non-deleted values of its own change).
    What remains partial: "contains all of that request's changes" as a statement about the merged VALUES
    (values = fold of commit_merge along the per-target chain) is the values_fold invariant of C02/C03, not proved
    here; a committing proposal whose configuration's Committed.Index is not its PrevIndex is marked COMMITTED
@@ -239,3 +242,27 @@ Theorem C01_all_or_none_values :
        live (view overlay C') = live (view overlay C)).
 Proof. exact all_or_none_values. Qed.
 Print Assumptions C01_all_or_none_values.
+
+(* deletions persist (Proofs/P2PureAtomicDeleted.v): after the commit step of a Change that deletes path d, at the end
+   of every continuation of well-formed labels and complete invocations nothing is live at d or beneath d in what Get
+   returns for the target, UNLESS a later commit step of a proposal of the same target (a Change, or a Rollback whose
+   values are p_rbvalues) merged values holding a non-deleted value at d or beneath d; that step is exhibited as a
+   position of the continuation.  (A commit step adds to the live view only paths of non-deleted values of what it
+   merges: commit_adds.) *)
+From OC Require Import Proofs.P2PureAtomicDeleted.
+Theorem C01_deleted_path_stays_deleted :
+  forall (ls1 ls2 : list Label) t i n (o : oracle) (P : Prop2) (C : Cfg) c d u,
+  labels_wfb (ls1 ++ LRec (CtlProp (t, i)) n o :: ls2) = true ->
+  completes p2_init (ls1 ++ LRec (CtlProp (t, i)) n o :: ls2) ->
+  props (x_run ls1) !! (t, i) = Some P -> p_details P = PChange c -> cfgs (x_run ls1) !! t = Some C ->
+  p_commit P = Some Doing -> p_apply P = None -> p_abort P = None -> c_committed C = p_prev P ->
+  In (d, u) c -> pv_deleted u = true ->
+  (exists C' : Cfg, cfgs (x_run (ls1 ++ LRec (CtlProp (t, i)) n o :: ls2)) !! t = Some C' /\
+                    forall k x, In (k, x) (live (view overlay C')) -> k <> d /\ ~ Below k d) \/
+  (exists ls2a ls2b j n' o' (Q : Prop2),
+     ls2 = ls2a ++ LRec (CtlProp (t, j)) n' o' :: ls2b /\
+     props (fold_left p2_step ls2a (x_run (ls1 ++ [LRec (CtlProp (t, i)) n o]))) !! (t, j) = Some Q /\
+     p_commit Q = Some Doing /\
+     exists k v, In (k, v) (rb_change [] Q) /\ pv_deleted v = false /\ (k = d \/ Below k d)).
+Proof. exact deleted_path_stays_deleted_run. Qed.
+Print Assumptions C01_deleted_path_stays_deleted.
